@@ -276,3 +276,20 @@ CHECKS["C13"] = {
     "explanation": "C11 histories with the fault schedule switched on: if a fault fired, some later Push/Finalise/Pull/Clear returned a non-nil non-EOF error, or the values delivered are exactly the pushed multiset; residue: directory gone after CleanUp and after an AutoClean drain, no run files after an AutoClear drain",
     "outside": "concurrent mode with faults, more than one fault, faults in TempDir beyond New's own error return",
 }
+
+
+def c16_jobs(tier):
+    jobs = []
+    shapes = [(2, 1, 4, 3), (2, 2, 3, 2)] if tier == "quick" else [(2, 1, 6, 4), (2, 2, 4, 3), (3, 1, 4, 2), (3, 2, 3, 2)]
+    for (p, l, ms, ml) in shapes:
+        jobs.append({"pkgdir": "align/pals", "func": "VerifC16_Piles", "math": True,
+                     "params": {"pairs": p, "locs": l, "maxstart": ms, "maxlen": ml}, "timeout_s": 900 if tier == "quick" else 3300})
+    return jobs
+
+
+CHECKS["C16"] = {
+    "jobs": c16_jobs,
+    "functions": ["pals.{NewPiler,(*Piler).Add,merge,Piles}", "pals.pileInterval.{Overlap,Range,ID}", "pals.Feature/Pair/Pile", "github.com/biogo/store/interval.IntTree (Insert, Delete, DoMatching, Do and the LLRB rotations: executed)"],
+    "explanation": "symbolic interval coordinates (nested, abutting, chained, duplicated intervals all inside the range), locations and insertion order case-split; specification = transitive closure of 'same location and overlapping or abutting' computed on symbolic booleans",
+    "outside": "more than 3 pairs, coordinates beyond the stated range, overlap slack other than 0, more than 2 locations; map iteration order is insertion order in the engine (the checked facts are order-insensitive)",
+}
